@@ -7,6 +7,7 @@ use rustradio::block::{Block, BlockEOF, BlockName, BlockRet};
 use rustradio::blocks::*;
 use rustradio::graph::{CancellationToken, Graph, GraphRunner};
 use rustradio::stream::ReadStream;
+use std::sync::atomic::{AtomicUsize, Ordering};
 use std::time::{Duration, Instant};
 
 // ---- Kani stubs (clock, sleep, statistics): their results never influence scheduling.
@@ -53,7 +54,63 @@ fn check_sink<T: Copy + Bits>(hook: &rustradio::vector_sink::Hook<T>, expect: &[
         assert!(s[i].bits_eq(&expect[i]), "sink sample differs from the reference result");
     }
     assert!(s.len() == expect.len(), "run() returned although the sink holds less than the reference result");
-    std::mem::forget(d);
+    drop(d); // release the sink's storage lock (a forgotten guard would keep it held)
+}
+
+// A sink that keeps only the samples (VectorSink also stores every tag, which costs CBMC
+// minutes per run; its verdict behaviour - consume everything, report a wait on the input -
+// is the same).  Storage is static so that the harness can look at it after run().
+const SB: usize = 0x7c06_0000_0000_0000;
+static SINK_LEN: [AtomicUsize; 2] = [AtomicUsize::new(SB + 1), AtomicUsize::new(SB + 2)];
+static mut SINK_DATA: [[u8; 16]; 2] = [[0xa5; 16]; 2];
+pub struct CollectSink {
+    src: ReadStream<u8>,
+    id: usize,
+}
+impl CollectSink {
+    pub fn new(src: ReadStream<u8>, id: usize) -> Self {
+        SINK_LEN[id].store(SB + 1 + id, Ordering::SeqCst);
+        Self { src, id }
+    }
+}
+fn sink_len(id: usize) -> usize {
+    SINK_LEN[id].load(Ordering::SeqCst) - (SB + 1 + id)
+}
+impl BlockName for CollectSink {
+    fn block_name(&self) -> &str {
+        "CollectSink"
+    }
+}
+impl BlockEOF for CollectSink {
+    fn eof(&mut self) -> bool {
+        self.src.eof()
+    }
+}
+impl Block for CollectSink {
+    fn work(&mut self) -> Result<BlockRet<'_>> {
+        let (i, tags) = self.src.read_buf()?;
+        std::mem::forget(tags);
+        let n = i.len();
+        let base = sink_len(self.id);
+        assert!(base + n <= 16, "BOUND: sink storage too small");
+        for k in 0..n {
+            // SAFETY: single-threaded runner, index checked above.
+            unsafe { SINK_DATA[self.id][base + k] = i.slice()[k] };
+        }
+        SINK_LEN[self.id].store(SB + 1 + self.id + base + n, Ordering::SeqCst);
+        i.consume(n);
+        Ok(BlockRet::WaitForStream(&self.src, 1))
+    }
+}
+
+fn check_collect(id: usize, expect: &[u8]) {
+    let n = sink_len(id);
+    assert!(n <= expect.len(), "sink holds more samples than the reference result");
+    for i in 0..n {
+        // SAFETY: single-threaded harness.
+        assert!(unsafe { SINK_DATA[id][i] } == expect[i], "sink sample differs from the reference result");
+    }
+    assert!(n == expect.len(), "run() returned although the sink holds less than the reference result");
 }
 
 pub const G_DIRECT: u8 = 0;
@@ -80,50 +137,43 @@ pub fn run_graph(shape: u8, order: &[usize], len: usize, cap: usize) {
     let mut blocks: Vec<Option<BB>> = Vec::with_capacity(5);
     blocks.push(Some(Box::new(src)));
     let mut g = Graph::new();
-    let hook2;
-    let hook = match shape {
+    let two;
+    match shape {
         G_DIRECT => {
-            let sink = VectorSink::new(s_out, 64);
-            let h = sink.hook();
-            hook2 = None;
+            let sink = CollectSink::new(s_out, 0);
+            two = false;
             blocks.push(Some(Box::new(sink)));
             for x in data.iter() {
                 expect.push(*x);
             }
-            h
         }
         G_XOR => {
             let (f, f_out) = XorConst::new(s_out, c);
-            let sink = VectorSink::new(f_out, 64);
-            let h = sink.hook();
-            hook2 = None;
+            let sink = CollectSink::new(f_out, 0);
+            two = false;
             blocks.push(Some(Box::new(f)));
             blocks.push(Some(Box::new(sink)));
             for x in data.iter() {
                 expect.push(*x ^ c);
             }
-            h
         }
         G_XOR_XOR => {
             let (f, f_out) = XorConst::new(s_out, c);
             let (f2, f2_out) = XorConst::new(f_out, 0x55u8);
-            let sink = VectorSink::new(f2_out, 64);
-            let h = sink.hook();
-            hook2 = None;
+            let sink = CollectSink::new(f2_out, 0);
+            two = false;
             blocks.push(Some(Box::new(f)));
             blocks.push(Some(Box::new(f2)));
             blocks.push(Some(Box::new(sink)));
             for x in data.iter() {
                 expect.push(*x ^ c ^ 0x55);
             }
-            h
         }
         G_TEE => {
             let (t, o1, o2) = Tee::new(s_out);
-            let sink1 = VectorSink::new(o1, 64);
-            let sink2 = VectorSink::new(o2, 64);
-            let h = sink1.hook();
-            hook2 = Some(sink2.hook());
+            let sink1 = CollectSink::new(o1, 0);
+            let sink2 = CollectSink::new(o2, 1);
+            two = true;
             blocks.push(Some(Box::new(t)));
             blocks.push(Some(Box::new(sink1)));
             blocks.push(Some(Box::new(sink2)));
@@ -131,7 +181,6 @@ pub fn run_graph(shape: u8, order: &[usize], len: usize, cap: usize) {
                 expect.push(*x);
                 expect2.push(*x);
             }
-            h
         }
         _ => {
             let (interp, deci) = if shape == G_RESAMP_DOWN { (1usize, 2usize) } else { (2usize, 1usize) };
@@ -142,9 +191,8 @@ pub fn run_graph(shape: u8, order: &[usize], len: usize, cap: usize) {
                     panic!("RationalResampler::new failed");
                 }
             };
-            let sink = VectorSink::new(r_out, 64);
-            let h = sink.hook();
-            hook2 = None;
+            let sink = CollectSink::new(r_out, 0);
+            two = false;
             blocks.push(Some(Box::new(r)));
             blocks.push(Some(Box::new(sink)));
             // out[j] = in[floor(j*deci/interp)], count = ceil(n*interp/deci)
@@ -152,7 +200,6 @@ pub fn run_graph(shape: u8, order: &[usize], len: usize, cap: usize) {
             for j in 0..n_out {
                 expect.push(data[j * deci / interp]);
             }
-            h
         }
     };
     add_in_order(&mut g, blocks, order);
@@ -160,9 +207,9 @@ pub fn run_graph(shape: u8, order: &[usize], len: usize, cap: usize) {
     run_ok(&mut g);
     let a1 = activity();
     witness!("run() returned");
-    check_sink(&hook, &expect);
-    if let Some(h2) = &hook2 {
-        check_sink(h2, &expect2);
+    check_collect(0, &expect);
+    if two {
+        check_collect(1, &expect2);
     }
     // Quiescence (i): a second run() invokes every block again; nothing may move.
     run_ok(&mut g);
@@ -171,13 +218,12 @@ pub fn run_graph(shape: u8, order: &[usize], len: usize, cap: usize) {
     let (p, c2) = rustradio::verif::activity_counts();
     assert!(p == c2, "run() returned with committed samples still unread in a stream");
     let _ = a0;
-    std::mem::forget((g, hook, hook2, data, expect, expect2));
+    std::mem::forget((g, data, expect, expect2));
 }
 
 // ---------------------------------------------------------------------------------
 // C07: failing block / cancelling block (harness-defined blocks in the chain).
 // ---------------------------------------------------------------------------------
-use std::sync::atomic::{AtomicUsize, Ordering};
 const CB: usize = 0x7c07_0000_0000_0707;
 /// work() calls seen by the probe blocks (non-zero initial pattern, see hooks).
 static CALLS_A: AtomicUsize = AtomicUsize::new(CB);
@@ -222,7 +268,8 @@ impl Block for Probe {
             CALLS_AFTER_CANCEL.fetch_add(1, Ordering::SeqCst);
         }
         if self.calls == self.fail_on {
-            return Err(rustradio::Error::msg("probe failure"));
+            // an allocation-free error value (String::new() does not allocate)
+            return Err(rustradio::Error::msg(String::new()));
         }
         if self.calls == self.cancel_on {
             if let Some(t) = &self.token {
